@@ -174,8 +174,16 @@ def run(ctx: Any, prog: Program) -> None:
             ctx.check('C17.N2', guarded, ins, r, 'collapse_all returns from inside the pass loop although func_instance entities may remain (the only sound early exit is an empty '
                       "by_class['func_instance'] at the start of a pass); instances nested in a template would stay uncollapsed", text='early return only on empty work list')
         # cache keyed by file name
-        ok = any(isinstance(n, ast.Subscript) and dotted(n.value) == 'file_cache' and dotted(n.slice) == 'inst.filename' for n in ast.walk(outer[0]))
-        ctx.check('C17.N2', ok, ins, outer[0], 'parsed templates must be cached under inst.filename', text='template cache key')
+        # the cache: a local subscript-assigned an InstanceFile(...); read and written under <instance>.filename, <instance> = Instance.from_entity(...)
+        inst_vars = {t.id for n in ast.walk(outer[0]) if isinstance(n, ast.Assign) and isinstance(n.value, ast.Call) and dotted(n.value.func) == 'Instance.from_entity' for t in n.targets if isinstance(t, ast.Name)}
+        cache_stores = [t for n in ast.walk(outer[0]) if isinstance(n, ast.Assign) and isinstance(n.value, ast.Call) and dotted(n.value.func) == 'InstanceFile' for t in n.targets if isinstance(t, ast.Subscript)]
+        if not cache_stores or not inst_vars:
+            ctx.shape('C17.N2', False, ins, outer[0], 'template cache (`<dict>[key] = InstanceFile(...)`) / `Instance.from_entity` not found', text='template cache key')
+        else:
+            cache = dotted(cache_stores[0].value)
+            uses = [n for n in ast.walk(outer[0]) if isinstance(n, ast.Subscript) and dotted(n.value) == cache]
+            ok = all(isinstance(n.slice, ast.Attribute) and n.slice.attr == 'filename' and dotted(n.slice.value) in inst_vars for n in uses)
+            ctx.check('C17.N2', ok, ins, uses[0], f'parsed templates must be looked up and cached under the file name of the instance being collapsed; found keys {sorted({ast.unparse(n.slice) for n in uses})}', text='template cache key')
     # ---- N3 --------------------------------------------------------------------------------------------
     fk = ins.func('Instance.fixup_key')
 
